@@ -218,10 +218,24 @@ func decodeOp(c int) Op {
 	return Op{K: opNames[c%3], I: c / 3}
 }
 
-type limiter map[string]int
+// limiter keeps the violation records deterministic: at most one record per clause+convention per SHARD (the
+// engine's own cap in Stats.Violate is per worker, and which worker takes which shard varies from run to run).
+// Every violating execution is still counted in the outcome histogram ("violation:<clause>").
+type limiter map[string]bool
 
-// ok reports whether another full violation record should be built for this clause in this shard.
-func (l limiter) ok(clause string) bool { l[clause]++; return l[clause] <= 3 }
+func (l limiter) ok(key string) bool {
+	if l[key] {
+		return false
+	}
+	l[key] = true
+	return true
+}
+
+func record(st *mc.Stats, v *mc.Violation) {
+	if v != nil {
+		st.Viol = append(st.Viol, v)
+	}
+}
 
 func Run(r *mc.Run) {
 	r.Rule = "every archive = every sequence of 0..N member shapes (with repetition) from the 14-shape alphabet; every execution = one archive x one ReaderAt convention x one operation sequence, all distinct by construction; an archive is non-trivial when it has >= 2 members or a member of odd or zero size (distinct_nontrivial counts such archives per scenario)"
@@ -274,7 +288,7 @@ func Run(r *mc.Run) {
 						if f != nil {
 							st.Class("violation:" + f.clause)
 							if lim.ok(f.clause + fmt.Sprint(conv)) {
-								st.Violate(checkSeq("archives-all", In{Members: ms, Conv: conv, Ops: ops}))
+								record(st, checkSeq("archives-all", In{Members: ms, Conv: conv, Ops: ops}))
 							}
 							_ = i
 						} else {
@@ -348,7 +362,7 @@ func Run(r *mc.Run) {
 					if f != nil {
 						st.Class("violation:" + f.clause)
 						if lim.ok(f.clause + fmt.Sprint(conv)) {
-							st.Violate(checkSeq(p.name, In{Members: ms, Conv: conv, Ops: append([]Op(nil), ops...)}))
+							record(st, checkSeq(p.name, In{Members: ms, Conv: conv, Ops: append([]Op(nil), ops...)}))
 						}
 					} else {
 						st.Classes[okClass[conv]]++
